@@ -319,6 +319,10 @@ class TFLiteSerialiser:
                     attrs["depth_multiplier"] = attrs["channel_multiplier"]
                 attrs["fused_activation_function"] = op.activation.op_type if op.activation is not None else None
 
+            if op.type == Op.Call:
+                # The reader replaced the index of the called subgraph with the subgraph itself
+                attrs["subgraph"] = attrs["call_subgraph_index"]
+
             # Serialize VarHandleOptions (only op that have attributes with type String)
             if "container" in attrs:
                 attrs["container"] = builder.CreateString(attrs["container"])
